@@ -62,6 +62,9 @@ PROBES = {
     # refused at the very first token, for every kind of token: the diagnostic quotes that token and nothing an earlier scan left behind
     'P8-first-token-append': b'+= 3', 'P9-first-token-equals': b'= 3', 'P10-first-token-brace': b'{ i = 1 }', 'P11-first-token-paren': b') (',
     'P12-first-token-comma': b', i', 'P13-first-token-closing': b'} i = 2',
+    # parsed into a context with annotation support (the dump shows annotations): comments that end in blanks, of the lengths at
+    # which scratch buffers are usually recycled
+    'P14-annotations': b'# note  \ni = 4\n/* rotate keys each week  */\ns = "v"\n# sixteen chars..  \nl = {5}',
 }
 
 
@@ -75,7 +78,9 @@ def fixture_lines():
 def history_lines(hist):
     """driver lines for a history; returns (lines, current context letter)"""
     cur = 'A'
-    lines = ['errno -1', 'init A E8 0', 'init B E8 0']
+    # fresh heap memory is pre-filled: with zeros in the reference runs (no history), with 0xBE after a history - a result that
+    # depends on what an earlier parse left in recycled memory, or on memory nobody wrote, differs
+    lines = ['fill %d' % (0xBE if hist else 0), 'errno -1', 'init A E8 0', 'init B E8 0']
     for ev in hist:
         kind, payload = EVENTS[ev]
         if kind == 'buf':
@@ -106,7 +111,8 @@ def key_case(hist):
 def fresh_probe_case(hist, pname):
     lines, cur = history_lines(hist)
     via = 'parse_fp' if pname.startswith('P6') else 'parse_buf'
-    return Case(fixture_lines() + lines + ['note probe', 'init C E8 0', '%s C %s' % (via, enc(PROBES[pname])), 'dump C 0', 'dump A 0', 'dump B 0',
+    cflags, cmode = (2048, 4) if pname.startswith('P14') else (0, 0)
+    return Case(fixture_lines() + lines + ['note probe', 'init C E8 %d' % cflags, '%s C %s' % (via, enc(PROBES[pname])), 'dump C %d' % cmode, 'dump A 0', 'dump B 0',
                                            'lexstate'], fork=True, horizon=20)
 
 
